@@ -1,0 +1,155 @@
+//go:build verif
+
+/*
+Copyright 2026 Codenotary Inc. All rights reserved.
+
+SPDX-License-Identifier: BUSL-1.1
+*/
+
+// Package simhook provides guarded instrumentation points used by the
+// deterministic-simulation harness (build tag "verif").
+//
+// With the tag on, every hook forwards to the function set installed by the
+// simulator through Install; with no hooks installed all functions are no-ops.
+package simhook
+
+import "sync/atomic"
+
+// Enabled reports whether simulation hooks are compiled in.
+const Enabled = true
+
+// Hooks is the set of callbacks a simulator may install. Nil members are no-ops.
+type Hooks struct {
+	// scheduling
+	Yield      func(point string)
+	BeforeLock func(point string, try func() bool)
+	GoStart    func(name string)
+	GoEnd      func()
+	// seeded choices and reach probes
+	Intn  func(n int, label string) int
+	Probe func(name string)
+	// storage observation
+	IOCreate    func(path string)
+	IOWrite     func(path string, off int64, data []byte)
+	IOSync      func(path string)
+	IOSyncDir   func(path string)
+	IORemove    func(path string)
+	IORemoveAll func(path string)
+	IOReplace   func(path string, data []byte)
+	// storage fault injection
+	IOFailWrite   func(path string, off int64, n int) error
+	IOFailSync    func(path string) error
+	IOFailRead    func(path string, off int64, n int) error
+	IOCorruptRead func(path string, off int64, b []byte)
+}
+
+var current atomic.Pointer[Hooks]
+
+// Install sets the active hook set (nil uninstalls).
+func Install(h *Hooks) { current.Store(h) }
+
+func Yield(point string) {
+	if h := current.Load(); h != nil && h.Yield != nil {
+		h.Yield(point)
+	}
+}
+
+func BeforeLock(point string, try func() bool) {
+	if h := current.Load(); h != nil && h.BeforeLock != nil {
+		h.BeforeLock(point, try)
+	}
+}
+
+func GoStart(name string) {
+	if h := current.Load(); h != nil && h.GoStart != nil {
+		h.GoStart(name)
+	}
+}
+
+func GoEnd() {
+	if h := current.Load(); h != nil && h.GoEnd != nil {
+		h.GoEnd()
+	}
+}
+
+func Intn(n int, label string) int {
+	if h := current.Load(); h != nil && h.Intn != nil {
+		return h.Intn(n, label)
+	}
+	return 0
+}
+
+func Probe(name string) {
+	if h := current.Load(); h != nil && h.Probe != nil {
+		h.Probe(name)
+	}
+}
+
+func IOCreate(path string) {
+	if h := current.Load(); h != nil && h.IOCreate != nil {
+		h.IOCreate(path)
+	}
+}
+
+func IOWrite(path string, off int64, data []byte) {
+	if h := current.Load(); h != nil && h.IOWrite != nil {
+		h.IOWrite(path, off, data)
+	}
+}
+
+func IOSync(path string) {
+	if h := current.Load(); h != nil && h.IOSync != nil {
+		h.IOSync(path)
+	}
+}
+
+func IOSyncDir(path string) {
+	if h := current.Load(); h != nil && h.IOSyncDir != nil {
+		h.IOSyncDir(path)
+	}
+}
+
+func IORemove(path string) {
+	if h := current.Load(); h != nil && h.IORemove != nil {
+		h.IORemove(path)
+	}
+}
+
+func IORemoveAll(path string) {
+	if h := current.Load(); h != nil && h.IORemoveAll != nil {
+		h.IORemoveAll(path)
+	}
+}
+
+func IOReplace(path string, data []byte) {
+	if h := current.Load(); h != nil && h.IOReplace != nil {
+		h.IOReplace(path, data)
+	}
+}
+
+func IOFailWrite(path string, off int64, n int) error {
+	if h := current.Load(); h != nil && h.IOFailWrite != nil {
+		return h.IOFailWrite(path, off, n)
+	}
+	return nil
+}
+
+func IOFailSync(path string) error {
+	if h := current.Load(); h != nil && h.IOFailSync != nil {
+		return h.IOFailSync(path)
+	}
+	return nil
+}
+
+func IOFailRead(path string, off int64, n int) error {
+	if h := current.Load(); h != nil && h.IOFailRead != nil {
+		return h.IOFailRead(path, off, n)
+	}
+	return nil
+}
+
+func IOCorruptRead(path string, off int64, b []byte) {
+	if h := current.Load(); h != nil && h.IOCorruptRead != nil {
+		h.IOCorruptRead(path, off, b)
+	}
+}
